@@ -1187,6 +1187,8 @@ class Executor:
     def binop(self, st, op, a, b, n):
         if hasattr(a, 'abs_binop'):
             return a.abs_binop(self, st, op, b, n)
+        if hasattr(b, 'abs_rbinop'):
+            return b.abs_rbinop(self, st, op, a, n)
         if isinstance(a, Ref) or isinstance(b, Ref):
             la = isinstance(a, Ref) and st.heap[a.oid].kind == 'list'
             lb = isinstance(b, Ref) and st.heap[b.oid].kind == 'list'
@@ -1425,6 +1427,8 @@ class Executor:
                 v = self.ev(a.value, st, fid)
                 if isinstance(v, tuple):
                     args.extend(v)
+                elif getattr(v, 'abs_star', False):
+                    args.append(v)      # an abstract argument sequence
                 elif isinstance(v, Ref) and 'items' in st.heap[v.oid].f:
                     args.extend(st.heap[v.oid].f['items'])
                 else:
@@ -1909,7 +1913,11 @@ class Executor:
         if isinstance(t, ast.Name):
             cur = self.lookup(st, fid, t.id, t)
             v = self.ev(s.value, st, fid)
-            if isinstance(cur, Ref) and st.heap[cur.oid].kind not in (
+            if hasattr(cur, 'abs_inplace'):
+                # an abstract mutable object: x += v mutates it (all of its
+                # aliases see the change) and rebinds the name to the result
+                st.frames[fid][t.id] = cur.abs_inplace(self, st, s.op, v, s)
+            elif isinstance(cur, Ref) and st.heap[cur.oid].kind not in (
                     'list',):
                 r = self.lib.inplace(self, st, type(s.op).__name__, cur, v, s)
                 st.frames[fid][t.id] = r
@@ -1936,7 +1944,9 @@ class Executor:
             base = self.ev(t.value, st, fid)
             cur = self.getattr(st, base, t.attr, t)
             v = self.ev(s.value, st, fid)
-            if isinstance(cur, Ref) and st.heap[cur.oid].kind == 'list':
+            if hasattr(cur, 'abs_inplace'):
+                r = cur.abs_inplace(self, st, s.op, v, s)
+            elif isinstance(cur, Ref) and st.heap[cur.oid].kind == 'list':
                 r = self.lib.list_inplace(self, st, type(s.op).__name__, cur,
                                           v, s)
             elif isinstance(cur, Ref):
